@@ -1,6 +1,7 @@
 package main
 
 import (
+	"runtime/debug"
 	"flag"
 	"fmt"
 	"os"
@@ -165,6 +166,9 @@ func main() {
 			func() {
 				defer func() {
 					if e := recover(); e != nil {
+						if os.Getenv("HLINT_STACK") != "" {
+							fmt.Fprintf(os.Stderr, "panic: %v\n%s\n", e, debug.Stack())
+						}
 						rep.undecided("internal", "analyser panic under "+w.Cfg.String(), "-", fmt.Sprint(e))
 					}
 				}()
